@@ -87,6 +87,142 @@ lemma(
 )
 
 
+# =====================================================================================================
+# Designspace vocabulary (fontTools.designspaceLib, trusted library) and util.get_userspace_location
+#
+# A design location / user location is a dict axis name (resp. tag) -> number.  The per-axis inverse mapping
+# (AxisDescriptor.map_backward of the coordinate, or the axis default when the location has no coordinate for it) is the
+# library's business: an opaque function k10_axis_user(axis, location).
+
+cls("DSAxis", fields={"name": STR, "tag": STR}, notes="designspaceLib AxisDescriptor: name (key of design locations) and OpenType tag")
+LOCD = Dict(STR, REAL)
+
+
+@specfn(REAL, opaque=True, axis=Ref("DSAxis"), location=LOCD)
+def k10_axis_user(axis, location):
+    """user-space coordinate of `location` on `axis`: axis.map_backward(location[axis.name]) if given, else axis.default (designspaceLib)"""
+    return axis.map_backward(location[axis.name]) if axis.name in location else axis.default
+
+
+def _names_distinct(ex, st, self, field="name"):
+    """the formula `no two axes of the document have the same name` (resp. tag)"""
+    import z3
+
+    axes = _lift(ex.read_field(st, self, "axes"))
+    arr = ex.field_array(st, "DSAxis", field)
+    i, j = z3.Int("ax!i"), z3.Int("ax!j")
+    return z3.ForAll([i, j], z3.Implies(z3.And(i >= 0, i < j, j < z3.Length(axes)), z3.Select(arr, axes[i]) != z3.Select(arr, axes[j])))
+
+
+def _lift(v):
+    from pyvc.core import lift
+
+    return lift(v)
+
+
+def _ds_map_backward(ex, st, self, args, kwargs, node):
+    """DesignSpaceDocument.map_backward(loc) == {axis.name: k10_axis_user(axis, loc) for axis in self.axes} (library source,
+    fontTools 4.x).  Stated for documents whose axis names are distinct (then: one key per axis, in axis order); without
+    that premise only the key set is given."""
+    import z3
+
+    from pyvc import models
+    from pyvc.api import SPECFNS
+    from pyvc.core import Val, fresh, fresh_name, lift
+
+    (loc,) = args
+    loc = Val(LOCD, lift(loc, LOCD))
+    axes = lift(ex.read_field(st, self, "axes"))
+    r = fresh(LOCD, "userloc")
+    s = LOCD.sort()
+    i = z3.Int(fresh_name("ax"))
+    k = fresh(STR, "axname")
+    name = ex.field_array(st, "DSAxis", "name")
+    n = z3.Length(axes)
+    inr = z3.And(i >= 0, i < n)
+    st.assume(z3.ForAll([i], z3.Implies(inr, z3.Select(s.dom(r), z3.Select(name, axes[i])))))
+    st.assume(z3.ForAll([k], z3.Implies(z3.Select(s.dom(r), k), z3.Exists([i], z3.And(inr, z3.Select(name, axes[i]) == k)))))
+    ku = ex.spec_decl(SPECFNS["k10_axis_user"])
+    D = _names_distinct(ex, st, self)
+    st.assume(z3.Implies(D, z3.And(
+        z3.Length(s.keys(r)) == n,
+        z3.ForAll([i], z3.Implies(inr, z3.And(s.keys(r)[i] == z3.Select(name, axes[i]),
+                                               z3.Select(s.map(r), z3.Select(name, axes[i])) == ku(axes[i], lift(loc))))))))
+    models.dict_wf(st, LOCD, r)
+    return Val(LOCD, r)
+
+
+def _axis_named():
+    import z3
+
+    from pyvc.ty import RefSort
+
+    return z3.Function("k10_axis_named", RefSort, z3.StringSort(), Opt(Ref("DSAxis")).sort())
+
+
+def _ds_get_axis(ex, st, self, args, kwargs, node):
+    """DesignSpaceDocument.getAxis(name) == k10_axis_named(doc, name), an optional axis characterised by the assumed field
+    `library_axioms` (the axis with that name; None when no axis has that name)"""
+    from pyvc.core import Val, lift
+
+    (nm,) = args
+    return Val(Opt(Ref("DSAxis")), _axis_named()(lift(self), lift(nm, STR)))
+
+
+def _ds_library_axioms(ex, st, self):
+    """axis names distinct => k10_axis_named(doc, axes[i].name) is axes[i]; a name no axis has gives None"""
+    import z3
+
+    from pyvc.core import Val, fresh, fresh_name, lift
+
+    axes = lift(ex.read_field(st, self, "axes"))
+    name = ex.field_array(st, "DSAxis", "name")
+    t = Opt(Ref("DSAxis")).sort()
+    i, j = z3.Int(fresh_name("li")), z3.Int(fresh_name("lj"))
+    nm = fresh(STR, "ln")
+    found = z3.ForAll([i], z3.Implies(z3.And(i >= 0, i < z3.Length(axes)), _axis_named()(lift(self), z3.Select(name, axes[i])) == t.some(axes[i])))
+    absent = z3.ForAll([nm], z3.Implies(z3.Not(z3.Exists([j], z3.And(j >= 0, j < z3.Length(axes), z3.Select(name, axes[j]) == nm))),
+                                        _axis_named()(lift(self), nm) == t.nil))
+    return Val(BOOL, z3.And(z3.Implies(_names_distinct(ex, st, self), found), absent))
+
+
+cls("DSDoc", fields={"axes": List(Ref("DSAxis"))}, methods={"map_backward": _ds_map_backward, "getAxis": _ds_get_axis},
+    derived={"library_axioms": _ds_library_axioms,
+             # definitions (not assumptions): no two axes share a name / a tag
+             "names_distinct": lambda ex, st, self: _bool(_names_distinct(ex, st, self)),
+             "tags_distinct": lambda ex, st, self: _bool(_names_distinct(ex, st, self, "tag"))},
+    views={"library_axioms": lambda o: True, "names_distinct": lambda o: len({a.name for a in o.axes}) == len(o.axes),
+           "tags_distinct": lambda o: len({a.tag for a in o.axes}) == len(o.axes)},
+    isa=("DesignSpaceDocument",),
+    notes="designspaceLib DesignSpaceDocument: axes; map_backward / getAxis as in the library source (assumed); `library_axioms` = the defining property of getAxis, assumed wherever a contract requires it")
+
+
+def _bool(t):
+    from pyvc.core import Val
+
+    return Val(BOOL, t)
+
+
+_AX = "designspace.axes"
+contract(
+    "ufo2ft.util:get_userspace_location",
+    props=["C10"],
+    params={"designspace": Ref("DSDoc"), "location": LOCD},
+    returns=LOCD,
+    # axis names and tags are the identifiers of a designspace's axes (designspace format; fvar needs distinct tags)
+    requires=["designspace.names_distinct", "designspace.tags_distinct",
+              "designspace.library_axioms"],  # trusted: what getAxis returns (fontTools)
+    ensures={
+        # one coordinate per axis, keyed by the axis TAG, holding the axis's user-space value of the design location
+        "every-axis": f"all({_AX}[i].tag in result for i in range(len({_AX})))",
+        "value": f"all(any({_AX}[i].tag == t and result[t] == k10_axis_user({_AX}[i], location) for i in range(len({_AX}))) for t in set(result))",
+        # (tags are distinct, so the two together say: result[axis.tag] == k10_axis_user(axis, location) for every axis)
+        "per-axis": f"all(result[{_AX}[i].tag] == k10_axis_user({_AX}[i], location) for i in range(len({_AX})))",
+    },
+    canaries={"keyed-by-name": f"all({_AX}[i].name in result for i in range(len({_AX})))"},
+)
+
+
 # ---- replay entry of the end-to-end observer (vcheck/hooks/c10.py) ------------------------------------------
 def _e2e_gen(rng, n):
     from vcheck.hooks import c10 as h
